@@ -6,6 +6,8 @@ import PyamgV.Proofs.C04Limits
 import PyamgV.Proofs.C04Compose
 import PyamgV.Proofs.ExtC04Steps
 import PyamgV.Proofs.ExtSpmmMat
+import PyamgV.Proofs.ExtC04XCheck
+import PyamgV.Proofs.ExtC04XSparse
 
 /-! # C04 — hierarchy structure: Galerkin coarse operators and coarsening limits
 
@@ -134,6 +136,37 @@ restate spmm_driver_dense := PyamgV.Spmm.CRatInst.toDenseC_get
 compare `A_c` with is the dense meaning of the sparse product `(R @ A) @ P` of the model -/
 restate spmm_checker_product := PyamgV.Spmm.CRatInst.checker_product_eq_model
 
+/-! ### hierarchies of any size, AIR with filtering (extension E50): `Model/ExtC04XModel.lean`.  `C04X.mulS` computes the
+dense product over the non-zero entries of the left factor; the driver op `c04x_check` runs `C04X.checkHierS` = `checkHier`
+with that product on hierarchies with up to 150 unknowns (and on the small ones next to `c04_check`), on
+`adaptive_sa_solver` output and on `MultilevelSolver(levels)` built by hand without `R`.  `C04X.filterMat` applies the
+kernel model of the C19 development (`C19.filterRowDiag` = `amg_core.filter_matrix_rows`) to every dense row;
+`C04X.checkHierF` (`c04x_checkf`) is the checker for `air_solver(filter_operator=(lump, theta))`: the step on level 0 works with
+the filtered copy `Af0 = filter(A0)` (observed inside the real step) and `A_1 = R_0 Af0 P_0`; a coarse level a step was attempted on
+was filtered in place, so it is `filter(R A P)`; decisions within `slack` of the threshold are skipped and counted. -/
+/-- the product over the non-zeros of the left factor is the dense product `Mat.mul` of the checker -/
+restate fast_product_same := PyamgV.C04X.mulS_eq
+/-- one definition: the checker the driver runs on hierarchies of any size is `checkHier` -/
+restate check_hier_fast_same := PyamgV.C04X.checkHierS_eq
+/-- ... hence it decides the specification `HierOK` -/
+restate check_hier_fast_iff := PyamgV.C04X.checkHierS_iff
+/-- the C19 kernel model of `filter_matrix_rows(diagonal=True)` on the dense rows computes the definition of the filter:
+entries with `|m_ij| < theta |m_ii|` are dropped; with lumping the dropped off-diagonal entries are added to the diagonal -/
+restate filter_dense_definition := PyamgV.C04X.filterMat_ent
+/-- the kernel model on a STORED row (no duplicate columns; any order, missing / explicitly zero entries) has the dense
+meaning of the definition of the filter ... -/
+restate filter_stored_row_meaning := PyamgV.C04X.filterRowDiag_meaning
+/-- ... so filtering the stored row (the real kernel) and filtering the dense row (`filterMat`, the checker) agree entry by entry -/
+restate filter_stored_vs_dense := PyamgV.C04X.sparse_filter_meaning
+/-- the checker for AIR hierarchies with filtering decides the specification `HierOKF` (stated with `Mat.mul`) -/
+restate check_hier_filtered_iff := PyamgV.C04X.checkHierF_iff
+/-- a chain without in-place filtered levels is a hierarchy in the sense of `HierOK` -/
+restate filtered_spec_without_flags := PyamgV.C04X.levelsOKF_unflagged
+/-- the clause of a filtered coarse level with the filter written out -/
+restate filtered_galerkin_clause := PyamgV.C04X.pairOKF_filtered_def
+/-- zero tolerance and no skipped decision: the matrix IS the filtered one, entry by entry -/
+restate filtered_exact := PyamgV.C04X.filtOK_exact
+
 /-! non-vacuity -/
 section spmm_examples
 open PyamgV.Spmm
@@ -177,5 +210,35 @@ example : PyamgV.ExtC04.step ⟨0, 12, 1⟩ (.pw 12 7) = .proceed 7 1 := by deci
 -- the loop on a table of observed step inputs: 12 -> 6 -> 2 rows, then small enough (coarsest first)
 example : PyamgV.ExtC04.buildC true (PyamgV.ExtC04.tableOracle #[.sa 6 1, .sa 2 1, .sa 1 1]) 10 2 10 ⟨0, 12, 1⟩
     = [⟨2, 2, 1⟩, ⟨1, 6, 1⟩, ⟨0, 12, 1⟩] := by decide
+
+-- extension E50.  theta = 1/2, no lumping: `A0 = tridiag(-1, 4, -1)` is filtered to `4 I`; `R0 (4 I) P0 = [[8, 0], [1, 4]]`
+-- is filtered in place to `[[8, 0], [0, 4]]` (flag), the last level `[12]` is the plain Galerkin product
+section e50_examples
+open PyamgV.C04X
+def fA0 : Mat := ⟨3, 3, #[⟨4,0⟩, ⟨-1,0⟩, ⟨0,0⟩, ⟨-1,0⟩, ⟨4,0⟩, ⟨-1,0⟩, ⟨0,0⟩, ⟨-1,0⟩, ⟨4,0⟩]⟩
+def fAf0 : Mat := ⟨3, 3, #[⟨4,0⟩, ⟨0,0⟩, ⟨0,0⟩, ⟨0,0⟩, ⟨4,0⟩, ⟨0,0⟩, ⟨0,0⟩, ⟨0,0⟩, ⟨4,0⟩]⟩
+def fP0 : Mat := ⟨3, 2, #[⟨1,0⟩, ⟨0,0⟩, ⟨1,0⟩, ⟨0,0⟩, ⟨0,0⟩, ⟨1,0⟩]⟩
+def fR0 : Mat := ⟨2, 3, #[⟨1,0⟩, ⟨1,0⟩, ⟨0,0⟩, ⟨0,0⟩, ⟨1/4,0⟩, ⟨1,0⟩]⟩
+def fA1 : Mat := ⟨2, 2, #[⟨8,0⟩, ⟨0,0⟩, ⟨0,0⟩, ⟨4,0⟩]⟩
+def fA1raw : Mat := ⟨2, 2, #[⟨8,0⟩, ⟨0,0⟩, ⟨1,0⟩, ⟨4,0⟩]⟩
+def fA2 : Mat := ⟨1, 1, #[⟨12,0⟩]⟩
+example : (filterMat (1/2) false fA0).data = fAf0.data := by decide +kernel
+example : (mulS fR0 (mulS fAf0 fP0)).data = fA1raw.data ∧ (fR0.mul (fAf0.mul fP0)).data = fA1raw.data := by decide +kernel
+-- lumping: the dropped entries go to the diagonal
+example : (filterMat (1/2) true fA0).data = #[⟨3,0⟩, ⟨0,0⟩, ⟨0,0⟩, ⟨0,0⟩, ⟨2,0⟩, ⟨0,0⟩, ⟨0,0⟩, ⟨0,0⟩, ⟨3,0⟩] := by decide +kernel
+example : checkHierF ⟨1/2, false, 0⟩ .none 0 fA0
+    [(⟨fAf0, fP0, fR0⟩, false), (⟨fA1, exP, exR⟩, true), (⟨fA2, exE, exE⟩, false)] = true := by decide +kernel
+-- the coarse level was NOT filtered although a step worked on it: rejected
+example : checkHierF ⟨1/2, false, 0⟩ .none 0 fA0
+    [(⟨fAf0, fP0, fR0⟩, false), (⟨fA1raw, exP, exR⟩, true), (⟨fA2, exE, exE⟩, false)] = false := by decide +kernel
+-- the Galerkin product on level 0 was formed with the unfiltered matrix: rejected
+example : checkHierF ⟨1/2, false, 0⟩ .none 0 fA0
+    [(⟨fA0, fP0, fR0⟩, false), (⟨fA1, exP, exR⟩, true), (⟨fA2, exE, exE⟩, false)] = false := by decide +kernel
+-- row 1 of `fA0` stored unsorted with an explicit zero: the kernel model on the stored row and `filterMat` agree (lumping: 4 - 1 - 1)
+example : (List.range 3).map (PyamgV.C19.entry (PyamgV.C19.filterRowDiag CRat.normSq (1/2) true 1 [(2, ⟨-1,0⟩), (1, ⟨4,0⟩), (0, ⟨-1,0⟩)]))
+    = (List.range 3).map ((filterMat (1/2) true fA0).ent 1) := by decide +kernel
+-- the fast checker on the two-level example
+example : checkHierS .symm 0 [⟨exA, exP, exR⟩, ⟨⟨1, 1, #[⟨2, 0⟩]⟩, exE, exE⟩] = true := by decide +kernel
+end e50_examples
 
 end PyamgV.Props.C04
